@@ -271,7 +271,8 @@ class BaseArray(BaseType):
         if cls.null_terminated:
             return cls.type._write_0(stream, data)
 
-        if not cls.dynamic and cls.num_entries != (actual_size := len(data)):
+        # A declared element count has to be met, whether or not the elements have a static size (uleb128 x[3])
+        if isinstance(cls.num_entries, int) and cls.num_entries != (actual_size := len(data)):
             raise ArraySizeError(f"Expected static array size {cls.num_entries}, got {actual_size} instead.")
 
         return cls.type._write_array(stream, data)
